@@ -91,9 +91,7 @@ func loadCases(verif string) ([]stCase, error) {
 
 // expectedRefactorAlarms lists refactorings on which a check is known to
 // report "undecided" by design.
-var expectedRefactorAlarms = map[string]string{
-	"R04-2": "PAN-1: the extracted helper indexes a slice by the range index of a sibling slice; the compiler can no longer prove the bound and no table row covers the new access",
-}
+var expectedRefactorAlarms = map[string]string{}
 
 func runCase(c stCase, repo, verif, self string) stResult {
 	res := stResult{Case: c}
@@ -210,13 +208,13 @@ func RunSelftest(prop, repo, verif string, par int) ([]stResult, error) {
 			c.Property = prop
 			sel = append(sel, c)
 		case c.Property == "*":
-			// without a property: run the refactoring against every property
-			for p := range PropRules {
-				cc := c
-				cc.Property = p
-				cc.ID = c.ID + "@" + p
-				sel = append(sel, cc)
-			}
+			// without a property: run the refactoring against the union of all
+			// rules in one process (every property's rule list is a subset of
+			// it, and the property-scoped rules take their widest scope there)
+			cc := c
+			cc.Property = "ALL"
+			cc.ID = c.ID + "@ALL"
+			sel = append(sel, cc)
 		case prop == "" || c.Property == prop:
 			sel = append(sel, c)
 		}
